@@ -46,6 +46,8 @@ def scenarios(tier, seed):
                         for op in ("marginalize", "reduce"):
                             for inplace in (True, False):
                                 add(family=f"cpd/{op}", pa=pa, card=card, vs=list(vs)[::-1], inplace=inplace)
+                                if op == "reduce":
+                                    add(family="cpd/reduce", pa=pa, card=card, vs=list(vs)[::-1], inplace=inplace, quiet=True)
     for shape in ["collider3", "chain3", "fork3", "diamond", "iso3"]:
         nodes, parents = C.SHAPES[shape]
         for card in C.card_options(nodes, tier)[:2]:
@@ -220,7 +222,7 @@ def run(desc, M):
                 return num / den
         else:
             st = {v: card[v] - 1 for v in vs}
-            res = cpd.reduce([(v, C.sname(desc, v, s)) for v, s in st.items()], inplace=desc["inplace"])
+            res = cpd.reduce([(v, C.sname(desc, v, s)) for v, s in st.items()], inplace=desc["inplace"], **({"show_warnings": False} if desc.get("quiet") else {}))
 
             def fn(a):
                 num = T({**a, **st})
